@@ -97,13 +97,13 @@ PROPS["C20"] = {
 PROPS["C10"] = {
     "level": "model_checking",
     "harnesses": [
-        {"name": "c10_parse", "params": {"quick": {"len": 24}}, "covers": ["parse.ok", "parse.err"], "budget_s": {"quick": 900, "thorough": 3600}},
+        {"name": "c10_parse", "params": {"quick": {"len": 24}, "thorough": {"len": 48}}, "covers": ["parse.ok", "parse.err"], "budget_s": {"quick": 900, "thorough": 3600}},
         {"name": "c10_parse_permissions", "params": {"quick": {"listlen": 4, "charlen": 2, "splitlimit": 2}}, "covers": ["perm.ok"], "budget_s": {"quick": 900, "thorough": 3600}},
         {"name": "c10_samples", "covers": ["sample.answered"]},
         {"name": "c10_handlers", "params": {"quick": {"arglen": 3, "free_tail": 0}}, "covers": ["handler.error-reply", "handler.ok-reply"], "budget_s": {"quick": 900, "thorough": 7200}},
     ],
     "bounds": {"quick": "parser: one fully symbolic line of <= 24 printable ASCII characters (at most 3 trailing ';', at most 3 separators located per split of symbolic text; lines starting with 'set-permissions ' go to their own harness: symbolic permission list of <= 4 chars, kinds walked up to 2 chars, <= 2 separators per split); handlers: every word of the parser table x 0..3 symbolic space-free tokens of <= 3 characters x session in {unauthenticated, admin with database, database token}, one command through process_request from a pre-state holding one resolved and one unresolved conflict record, then the node's real replication loop (service thread) processes whatever the command queued and must still be running, followed by a probe set/get from a second client; plus 14 concrete hostile lines (5000-byte token, 2- / 3- / 4-byte UTF-8 characters straddling the 250 / 1024 / 4096 byte marks, control characters, 300 separators, 400-digit numbers) from two session kinds",
-               "thorough": "same (deeper bounds were not re-validated after the last engine changes)"},
+               "thorough": "parser line <= 48 chars; handlers as in the quick tier"},
     "outside": "non-UTF-8 bytes (rejected by the transports before the parser) and non-ASCII text in symbolic positions; the ws / tiny_http crates; sequences of more than one hostile command; the native stack is modelled as a limit of 256 nested request-handler frames (c10_samples carries a 15 KB line of nested rp wrappers); arithmetic overflow panics that exist only in debug builds are reported under their own check ids",
     "assumptions": ["environment shims", "single-thread self-deadlock = a lock requested while the same thread holds it incompatibly is reported as a panic"],
 }
